@@ -931,9 +931,10 @@ def p_compilerDirective(p):
     elif directive == 'namespace':
         # parse the param to separate out namespace from other wbemuri pieces
         m = WBEM_URI_NAMESPACEPATH_REGEXP.match(param)
-        ns_type = m.group(1) or None
-        host = m.group(2) or None
-        namespace = m.group(3) or None
+        if m is not None:
+            ns_type = m.group(1) or None
+            host = m.group(2) or None
+            namespace = m.group(3) or None
         if m is None or ns_type or host or namespace is None:
             raise MOFParseError(
                 msg=_format(
